@@ -21,15 +21,16 @@ mod shuttle_impl {
     pub static BLOCKED: AtomicU64 = AtomicU64::new(0);
     pub static UPGRADES: AtomicU64 = AtomicU64::new(0);
 
-    /// Observer for lock events: (lock address, kind). Used for interleaving signatures.
-    pub static OBSERVER: std::sync::Mutex<Option<Box<dyn FnMut(usize, u8) + Send>>> = std::sync::Mutex::new(None);
-    fn observe(addr: usize, kind: u8) {
+    /// Interleaving signature: hash of the sequence of (lock event kind, acting thread).
+    pub static SIG: AtomicU64 = AtomicU64::new(0);
+    fn observe(_addr: usize, kind: u8) {
         LOCK_OPS.fetch_add(1, Ordering::Relaxed);
-        if let Ok(mut o) = OBSERVER.try_lock() {
-            if let Some(o) = o.as_mut() {
-                o(addr, kind);
-            }
-        }
+        let me = {
+            let id = format!("{:?}", shuttle::thread::current().id());
+            id.bytes().fold(0u64, |h, b| (h ^ b as u64).wrapping_mul(0x100000001b3))
+        };
+        let h = SIG.load(Ordering::Relaxed);
+        SIG.store((h ^ (kind as u64) ^ me.rotate_left(8)).wrapping_mul(0x100000001b3).rotate_left(7), Ordering::Relaxed);
     }
 
     #[derive(Default)]
@@ -118,6 +119,91 @@ mod shuttle_impl {
 
         pub fn get_mut(&mut self) -> &mut T {
             self.data.get_mut()
+        }
+
+        pub fn try_read(&self) -> Option<RwLockReadGuard<'_, T>> {
+            let mut s = self.state.lock().unwrap();
+            if s.writer || s.writers_waiting > 0 {
+                return None;
+            }
+            s.readers += 1;
+            drop(s);
+            observe(self.addr(), b'r');
+            Some(RwLockReadGuard { lock: self })
+        }
+
+        pub fn try_upgradable_read(&self) -> Option<RwLockUpgradableReadGuard<'_, T>> {
+            let mut s = self.state.lock().unwrap();
+            if s.writer || s.upgradable || s.writers_waiting > 0 {
+                return None;
+            }
+            s.upgradable = true;
+            drop(s);
+            observe(self.addr(), b'u');
+            Some(RwLockUpgradableReadGuard { lock: self, live: true })
+        }
+
+        pub fn try_write(&self) -> Option<RwLockWriteGuard<'_, T>> {
+            let mut s = self.state.lock().unwrap();
+            if s.writer || s.upgradable || s.readers > 0 {
+                return None;
+            }
+            s.writer = true;
+            drop(s);
+            observe(self.addr(), b'w');
+            Some(RwLockWriteGuard { lock: self })
+        }
+
+        pub fn read_recursive(&self) -> RwLockReadGuard<'_, T> {
+            let mut s = self.state.lock().unwrap();
+            while s.writer {
+                s = self.cv.wait(s).unwrap();
+            }
+            s.readers += 1;
+            drop(s);
+            observe(self.addr(), b'r');
+            RwLockReadGuard { lock: self }
+        }
+
+        pub fn is_locked(&self) -> bool {
+            let s = self.state.lock().unwrap();
+            s.writer || s.upgradable || s.readers > 0
+        }
+
+        pub fn into_inner(self) -> T {
+            self.data.into_inner()
+        }
+    }
+
+    impl<'a, T> RwLockWriteGuard<'a, T> {
+        /// Atomically downgrade a write lock into a read lock.
+        pub fn downgrade(s: Self) -> RwLockReadGuard<'a, T> {
+            let lock = s.lock;
+            std::mem::forget(s);
+            let mut st = lock.state.lock().unwrap();
+            st.writer = false;
+            st.readers += 1;
+            drop(st);
+            observe(lock.addr(), b'd');
+            lock.cv.notify_all();
+            RwLockReadGuard { lock }
+        }
+    }
+
+    impl<'a, T> RwLockUpgradableReadGuard<'a, T> {
+        pub fn try_upgrade(mut s: Self) -> Result<RwLockWriteGuard<'a, T>, Self> {
+            let lock = s.lock;
+            let mut st = lock.state.lock().unwrap();
+            if st.readers > 0 {
+                drop(st);
+                return Err(s);
+            }
+            s.live = false;
+            st.upgradable = false;
+            st.writer = true;
+            drop(st);
+            observe(lock.addr(), b'g');
+            Ok(RwLockWriteGuard { lock })
         }
     }
 
